@@ -8,6 +8,7 @@ import (
 	"go/ast"
 	"go/token"
 	"go/types"
+	"regexp"
 	"strings"
 )
 
@@ -1428,4 +1429,61 @@ func c() *eq {
 func ruleCallOrder(prog *Program, rep *Report, floor int, rels ...string) {
 	rep.Rules = append(rep.Rules, "P-callorder: when two package-level functions are composed (one applied to the other's result, directly or through a local variable) they are composed in the same order everywhere in the package; the minority order is reported ("+strings.Join(rels, ", ")+")")
 	runSynRule(prog, rep, "P-callorder", rels, matchCallOrder, fixtureCallOrder, 1, floor)
+}
+
+// ---------------------------------------------------------------- S-gettwin
+
+// ruleGetTwins: asm's get and getall are one function up to the JSONPath method that produces the result
+// (First / Get): which data the path is applied to - the optional second argument, the local value for an
+// @-path, the root otherwise - is decided by the same tests in the same order in both.
+func ruleGetTwins(prog *Program, rep *Report) {
+	rep.Rules = append(rep.Rules, "S-gettwin: the bodies of asm.get and asm.getall have the same statements once the function's own name, the name of its result, string literals and the jp.Expr method that produces the result (First / Get) are replaced by placeholders: both choose the data the path is applied to by the same tests in the same order")
+	pk := prog.Pkg("asm")
+	if pk == nil {
+		rep.Errorf("S-gettwin: package asm not loaded")
+		return
+	}
+	lines := map[string][]string{}
+	pos := map[string]token.Pos{}
+	for _, name := range []string{"get", "getall"} {
+		fd, _ := prog.FuncDecl(Func(pk, name))
+		if fd == nil {
+			rep.Errorf("S-gettwin: asm.%s not found", name)
+			return
+		}
+		res := ""
+		if fd.Type.Results != nil && len(fd.Type.Results.List) == 1 && len(fd.Type.Results.List[0].Names) == 1 {
+			res = fd.Type.Results.List[0].Names[0].Name
+		}
+		var out []string
+		for _, l := range twinBodyLines(fd) {
+			l = regexp.MustCompile(`"[^"]*"`).ReplaceAllString(l, "STR")
+			l = regexp.MustCompile(`\b`+name+`\b`).ReplaceAllString(l, "NAME")
+			if res != "" {
+				l = regexp.MustCompile(`\b`+res+`\b`).ReplaceAllString(l, "RES")
+			}
+			l = regexp.MustCompile(`\.(First|Get)\(`).ReplaceAllString(l, ".SEL(")
+			out = append(out, l)
+		}
+		lines[name] = out
+		pos[name] = fd.Pos()
+	}
+	rep.Eval(len(lines["get"]))
+	if len(lines["get"]) < 8 {
+		rep.Errorf("S-gettwin: asm.get has %d statements (floor 8)", len(lines["get"]))
+	}
+	if strings.Join(lines["get"], "\n") == strings.Join(lines["getall"], "\n") {
+		rep.Discharge("S-gettwin", "asm.get=getall", prog.Pos(pos["get"]), fmt.Sprintf("%d statements equal up to the result method", len(lines["get"])))
+		return
+	}
+	a, b := diffLines(lines["get"], lines["getall"])
+	// order matters too: report the first position at which the two differ
+	first := ""
+	for i := range lines["get"] {
+		if i >= len(lines["getall"]) || lines["get"][i] != lines["getall"][i] {
+			first = lines["get"][i]
+			break
+		}
+	}
+	rep.Violate(Finding{Rule: "S-gettwin", Key: "asm.get=getall", Pos: prog.Pos(pos["get"]), Msg: fmt.Sprintf("asm.get and asm.getall no longer choose their data alike: first difference at `%s`; only in get %v, only in getall %v", first, a, b)})
 }
